@@ -18,16 +18,20 @@ EXTENDS Integers, Sequences, FiniteSets, TLC, Pow2, Poly, Limbs, Glwe
 
 HasPt(layout) == layout \notin {"tsk"}
 \* ---- dependency structure over the runs of one back-end
+\* "really depends on" is only demanded where a coincidence is impossible in practice (< 2^-40): a changed
+\* secret re-randomises every body coefficient (size*b bits each), a changed error seed only the error
+\* (>= 3 bits of collision entropy per coefficient at sigma = 3.2), a changed mask seed nmask digits of b bits.
+BodyCoeffs(e, x) == x.nbody \div e.size
 DepOK(e) ==
   LET R == {e.runs[k] : k \in 1..Len(e.runs)} IN
-  /\ \A x \in R : x.panic = "" /\ x.nmask > 0
+  /\ \A x \in R : x.panic = "" /\ x.nmask > 0 /\ x.nbody > 0
   /\ \A x, y \in R :
        /\ (x.xa = y.xa) => x.mask = y.mask                      \* also across back-ends: one mask stream, one order, one radix
-       /\ (x.xa # y.xa) => x.mask # y.mask
+       /\ (x.xa # y.xa /\ x.nmask * e.b >= 48) => x.mask # y.mask
        /\ (x.be = y.be /\ x.pt = y.pt /\ x.sk = y.sk /\ x.xa = y.xa /\ x.xe = y.xe) => x.body = y.body     \* deterministic
        /\ (x.be = y.be /\ x.sk = y.sk /\ x.xa = y.xa /\ x.xe = y.xe /\ x.pt # y.pt /\ HasPt(e.layout)) => x.body # y.body
-       /\ (x.be = y.be /\ x.pt = y.pt /\ x.xa = y.xa /\ x.xe = y.xe /\ x.sk # y.sk) => x.body # y.body
-       /\ (x.be = y.be /\ x.pt = y.pt /\ x.sk = y.sk /\ x.xa = y.xa /\ x.xe # y.xe) => x.body # y.body
+       /\ (x.be = y.be /\ x.pt = y.pt /\ x.xa = y.xa /\ x.xe = y.xe /\ x.sk # y.sk /\ BodyCoeffs(e, x) * e.size * e.b >= 48) => x.body # y.body
+       /\ (x.be = y.be /\ x.pt = y.pt /\ x.sk = y.sk /\ x.xa = y.xa /\ x.xe # y.xe /\ BodyCoeffs(e, x) >= 16) => x.body # y.body
 DepBeOK(e) == \A k, l \in 1..Len(e.runs) : (e.runs[k].v = e.runs[l].v) => e.runs[k].body = e.runs[l].body
 
 \* ---- errors of one logged object (sequence over cells of sequences over coefficients)
